@@ -254,6 +254,47 @@ def interpolation_cases():
             yield {'name': f"interpolation|{tag}|{br}", 'ok': not probs, 'detail': '; '.join(probs[:3])}
 
 
+def stored_format_cases():
+    """whole-number data stored as integers (lists of ints, an integer table): whole branches, slices and interpolated values in the
+    stored and in requested units equal those of the same data stored as floats"""
+    import pandas
+    import pygaps
+    pygaps.logger.disabled = True
+    meta = dict(material='pgv_c03', adsorbate='nitrogen', temperature=77.355, pressure_mode='absolute', pressure_unit='bar', loading_basis='molar',
+                loading_unit='mmol', material_basis='mass', material_unit='g', temperature_unit='K')
+    P, L, B = [1, 2, 3, 5, 8, 5, 3, 2], [20, 50, 90, 140, 200, 170, 120, 70], [0, 0, 0, 0, 0, 1, 1, 1]
+    ref = pygaps.PointIsotherm(pressure=[float(x) for x in P], loading=[float(x) for x in L], branch=B, **meta)
+    forms = {'int_lists': pygaps.PointIsotherm(pressure=P, loading=L, branch=B, **meta),
+             'int_table': pygaps.PointIsotherm(isotherm_data=pandas.DataFrame({'pressure': P, 'loading': L, 'branch': B}), pressure_key='pressure', loading_key='loading', **meta)}
+    queries = {
+        'pressure(ads)': lambda i: i.pressure(branch='ads'),
+        'loading(des, mol)': lambda i: i.loading(branch='des', loading_unit='mol'),
+        'pressure(Pa, limits)': lambda i: i.pressure(pressure_unit='Pa', limits=(2e5, 5e5)),
+        'loading_at([1.5, 4, 7.5])': lambda i: i.loading_at([1.5, 4.0, 7.5]),
+        'loading_at(250000 Pa, des)': lambda i: i.loading_at(250000.0, pressure_unit='Pa', branch='des'),
+        'pressure_at([35, 117])': lambda i: i.pressure_at([35.0, 117.0]),
+        'pressure_at(0.1 mol)': lambda i: i.pressure_at(0.1, loading_unit='mol'),
+    }
+    for k, iso in forms.items():
+        probs = []
+        for qn, q in queries.items():
+            try:
+                a, b = numpy.asarray(q(iso), dtype=float), numpy.asarray(q(ref), dtype=float)
+                if a.shape != b.shape or not numpy.allclose(a, b, rtol=1e-12):
+                    probs.append(f"{qn}: {a} vs {b} for float data")
+            except Exception as exc:
+                probs.append(f"{qn}: {type(exc).__name__}: {exc}"[:120])
+        yield {'name': f"stored_number_format|{k}", 'ok': not probs, 'detail': '; '.join(probs[:3])}
+
+
+@replayer('c03.stored_format')
+def _stored_format(spec, model):
+    for r in stored_format_cases():
+        if r['name'] == spec['name']:
+            return {'confirmed': not r['ok'], 'observed': r['detail'], 'expected': 'same numbers as for the data stored as floats'}
+    return {'confirmed': False, 'error': 'case not found'}
+
+
 @replayer('c03.interpolation')
 def _interpolation(spec, model):
     for r in interpolation_cases():
